@@ -48,6 +48,16 @@ def run(ctx):
             forwards = any("levels" in names_in(c) for c in sends)
             par = parents(f)
             ops = frame_ops(f)
+            # `del frames[-levels:]` / `frames[-levels]`: for levels == 0 (a legal `(pop 0)`) the index -0 is 0
+            negs = [n for n in ast.walk(f) if isinstance(n, ast.Subscript) and is_self_attr(n.value) and n.value.attr in FRAMES
+                    and ((isinstance(n.slice, ast.Slice) and n.slice.lower is not None and norm(n.slice.lower) == "-levels")
+                         or norm(n.slice) == "-levels")]
+            for n in negs:
+                ctx.finding(rs, "%s.%s|negative-zero-index|%s" % (TS, nm, n.value.attr),
+                            "%s uses %s: for levels == 0 the index -0 denotes the whole list, so (%s 0) drops every "
+                            "declaration frame" % (nm, norm(n), nm), method_loc(repo, TS, n))
+            if negs:
+                continue
             if not ops:
                 rs.unrec("%s: no declaration-frame bookkeeping found" % nm)
                 continue
